@@ -119,13 +119,17 @@ CHECKS = {
         engine="tlc-vectorise",
         technique="TLC model checking of Vectorise.tla + TLC batch trace validation of the real vectorisePositions, "
                   "blur, toRelativeGenomicPositions, PeaksSelector.selectPeaks, OpticalMap.getSequence (composed entry) and "
-                  "CorrelationResult.createPeaks (per-correlation cut)",
+                  "CorrelationResult.createPeaks (per-correlation cut); TLC trace validation (Trace_Seeding over Seeding.tla) of "
+                  "the real OpticalMap.getInitialAlignment",
         text="TLC exhausts the sliding-window state machine (negative starts, ends before the last label, end=0), "
              "blur (all vectors up to length 7, radii 0..3), bin centres (resolutions 1..12) and top-N selection "
              "with ties on small cases against the C16 clauses; the same cases and random large ones go through the "
-             "real functions and TLC judges every result.",
-        design_ref="DESIGN.md section 4 (C16), section 10",
-        note="The numerical correlation itself is not modelled (DESIGN.md section 6).",
+             "real functions and TLC judges every result. The stage that composes them, getInitialAlignment, is replayed "
+             "action by action against Seeding.tla (exact Dice correlation, maxima, height / distance filters, top "
+             "peaksCount): seeds must be bin centres and the kept ones the highest of the candidates.",
+        design_ref="DESIGN.md section 4 (C16), section 10, 10.13",
+        note="The correlation is modelled in exact rational arithmetic (Seeding.tla); where floating point breaks an exact "
+             "tie the specification allows either outcome and the logged seeds bind the choice.",
     ),
     "C18": dict(
         engine="tlc-xmap",
@@ -191,16 +195,20 @@ CHECKS = {
     "C06": dict(
         engine="tlc-aligncore",
         technique="TLC model checking of the discrete placement lemma (MC_Planted over AlignCore.tla) + TLC batch "
-                  "validation (Trace_Planted) of what the real pipeline reports for planted queries; the FFT seeding "
-                  "is observed, not modelled",
+                  "validation (Trace_Planted) of what the real pipeline reports for planted queries; TLC model checking of "
+                  "the seeding stage (MC_Seeding over Seeding.tla: exact Dice correlation, peak finding) + trace validation "
+                  "(Trace_Seeding) of the real getInitialAlignment",
         text="TLC proves on small lattices that an exact copy whose seed lies within maxD of the true diagonal (spacing "
              "> 2 maxD) is aligned to exactly the true pairs on both strands; the property itself is decided on "
              "planted inputs in the quantifier's domain (single reference, spacing >= 2 kb, mean >= 9 kb, windows of "
              "15-45 interior labels, both strands, offsets and trailing lengths, decimals, label-dense stretches, "
              "segmental duplications with a diverged copy) run through the real "
              "pipeline with default parameters in every output mode, TLC checking reference, strand, exact pairs, "
-             "offsets <= 200 bp and HitEnum nM.",
-        design_ref="DESIGN.md section 4 (C06), section 6, section 10",
+             "offsets <= 200 bp and HitEnum nM. The seeding half is a model of its own since round 9 (Seeding.tla): TLC shows "
+             "that a planted lattice copy has correlation sample 1 (the global maximum) at its true offset and that an "
+             "exact locus that is a strict interior maximum is always among the seeds, and replays the real stage "
+             "(2 200 calls) against the model.",
+        design_ref="DESIGN.md section 4 (C06), section 6, section 10, 10.13",
         note="The cross-correlation / peak finding is numerical: for that half the evidence is sampled inputs "
              "(exploration), stated in the evidence file; only the lemma is exhaustive.",
     ),
@@ -334,7 +342,7 @@ def main():
             {"name": "tlc-xmap", "path": "spec/Xmap.tla", "serves_properties": ["C02", "C18"],
              "kind_free_text": "MC_Xmap, Trace_Xmap; harness/props/c02.py, c18.py, pipe_common.py"},
             {"name": "tlc-vectorise", "path": "spec/Vectorise.tla", "serves_properties": ["C16"],
-             "kind_free_text": "MC_Vectorise, Trace_Vectorise; harness/props/c16.py"},
+             "kind_free_text": "MC_Vectorise, Trace_Vectorise; Seeding.tla, MC_Seeding, Trace_Seeding (getInitialAlignment); harness/props/c16.py, seeding.py"},
             {"name": "tlc-pipeline", "path": "spec/Pipeline.tla", "serves_properties": ["C05", "C07", "C08"],
              "kind_free_text": "Pipeline.tla, Worker.tla, MC_Pipeline, MC_Worker, Trace_Pipeline, Trace_SameFiles; harness/props/c05.py, c07.py, c08.py"},
             {"name": "tlc-pool", "path": "spec/Pool.tla", "serves_properties": ["C09", "C10"],
